@@ -128,7 +128,7 @@ RuleDateInterval(d, i) ==
      ELSE IF f = NONE \/ t = NONE THEN MkInterval(f, t)
      ELSE LET fd == DtOf(f)  td == DtOf(t) IN
           IF fd = ERR \/ td = ERR THEN ERR
-          ELSE IF AbsMin(fd) < AbsMin(td) THEN MkInterval(f, t)
+          ELSE IF TsLT(fd, td) THEN MkInterval(f, t)
           ELSE IF f.H # X /\ t.H # X /\ f.H <= 12 /\ t.H <= 12 /\ f.H >= t.H
                THEN LET e == AddMinutes(td, 720) IN MkInterval(f, MkTime(e.y, e.m, e.d, e.H, e.M, X, t.p))
                ELSE LET e == AddDays(td, 1) IN MkInterval(f, MkTime(e.y, e.m, e.d, e.H, e.M, X, t.p))
@@ -140,7 +140,7 @@ RulePODInterval(p, i) ==
       bothDT == i.f # NONE /\ i.t # NONE /\ isDateTime(mk(i.f)) /\ isDateTime(mk(i.t))
   IN IF ~(okEnd(i.f) /\ okEnd(i.t)) THEN FAIL
      \* repaired (fix a89b919, C02): shifting only the start into the afternoon must not invert a dated interval
-     ELSE IF bothDT /\ AbsMin(DtOf(mk(i.f))) >= AbsMin(DtOf(mk(i.t))) THEN FAIL
+     ELSE IF bothDT /\ TsLE(DtOf(mk(i.t)), DtOf(mk(i.f))) THEN FAIL
      ELSE MkInterval(mk(i.f), mk(i.t))
 
 \* ---- the rule base -------------------------------------------------------
@@ -191,7 +191,7 @@ Apply(r, ts, a) ==
     [] r = "ruleLatentPOD" ->
          IF ~PodKnown(a[1].p) THEN ERR
          ELSE LET t0 == SetHM(ts, PodH0(a[1].p), 0)
-                  t1 == IF AbsMin(t0) <= AbsMin(ts) THEN AddDays(t0, 1) ELSE t0
+                  t1 == IF TsLE(t0, ts) THEN AddDays(t0, 1) ELSE t0
               IN MkTime(t1.y, t1.m, t1.d, X, X, X, a[1].p)
     [] r = "ruleDDMM" -> DOYIfValid(a[1].n2, a[1].n1)
     [] r = "ruleMMDD" -> DOYIfValid(a[1].n2, a[1].n1)
@@ -269,18 +269,18 @@ RuleNames == {
 \* ---- post-processing of latent times (postprocess_latent.py) --------------
 LatentTOD(ts, tod) ==
   LET t0 == SetHM(ts, tod.H, Nz(tod.M, 0))
-      t1 == IF AbsMin(t0) <= AbsMin(ts) THEN AddDays(t0, 1) ELSE t0
+      t1 == IF TsLE(t0, ts) THEN AddDays(t0, 1) ELSE t0
   IN DateTime(t1.y, t1.m, t1.d, t1.H, t1.M)
 
 LatentInterval(ts, iv) ==
   LET f0 == SetHM(ts, iv.f.H, Nz(iv.f.M, 0))
       t0 == SetHM(ts, iv.t.H, Nz(iv.t.M, 0))
-      roll == AbsMin(f0) <= AbsMin(ts)
+      roll == TsLE(f0, ts)
       f1 == IF roll THEN AddDays(f0, 1) ELSE f0
       t1 == IF roll THEN AddDays(t0, 1) ELSE t0
       \* INTENDED(C07): an end that is not after the start wraps exactly as on an explicit date
       \* (ruleDateInterval): 12 hours later for the implicit am->pm case, else the next day
-      t2 == IF AbsMin(t1) > AbsMin(f1) THEN t1
+      t2 == IF TsLT(f1, t1) THEN t1
             ELSE IF iv.f.H <= 12 /\ iv.t.H <= 12 /\ iv.f.H >= iv.t.H THEN AddMinutes(t1, 720)
             ELSE AddDays(t1, 1)
   IN MkInterval(DateTime(f1.y, f1.m, f1.d, f1.H, f1.M), DateTime(t2.y, t2.m, t2.d, t2.H, t2.M))
